@@ -153,6 +153,7 @@ func negTerm(nc negCase) string {
 }
 
 var fourLevels = []string{"REQUIRED", "PREFERRED", "OPTIONAL", "NEVER"}
+var nonReqInteg = []string{"OPTIONAL", "NEVER", "PREFERRED"}
 
 func genNegotiate(c *core.Ctx) {
 	garbage := []string{"", "required", "Required", "TRUE", "REQUIRED ", "ALWAYS", "never"}
@@ -675,10 +676,36 @@ func genHonest(c *core.Ctx) error {
 								if c.Quick() && (cell+mi+ci+cmd)%2 == 0 {
 									continue // quick: alternate command present / auth-only
 								}
+								// Integrity is outside the table but inside the configuration: rotate
+								// each side over the non-REQUIRED levels so that no cell is only ever
+								// run with the default OPTIONAL
+								ci3 := nonReqInteg[(cell+mi+2*ci)%3]
+								si3 := nonReqInteg[(cell/3+mi+ci)%3]
 								specs = append(specs, hsSpec{"hs",
-									peer.Policy{Auth: ca, Enc: ce, Methods: ms.C, Ciphers: cs.C, Command: cmd},
-									peer.Policy{Auth: sa, Enc: se, Methods: ms.S, Ciphers: cs.S}})
+									peer.Policy{Auth: ca, Enc: ce, Integ: ci3, Methods: ms.C, Ciphers: cs.C, Command: cmd},
+									peer.Policy{Auth: sa, Enc: se, Integ: si3, Methods: ms.S, Ciphers: cs.S}})
 							}
+						}
+					}
+				}
+			}
+		}
+	}
+	// every cell of the matrix with Integrity NEVER on one or both sides (an endpoint
+	// that wants no protection at all still takes part in the key agreement)
+	for _, ca := range fourLevels {
+		for _, sa := range fourLevels {
+			for _, ce := range fourLevels {
+				for _, se := range fourLevels {
+					for k, l := range [][2]string{{"NEVER", "NEVER"}, {"NEVER", "PREFERRED"}, {"OPTIONAL", "NEVER"}} {
+						for ci, cs := range cshapes[:2] {
+							ms := mshapes[0]
+							if (k+ci)%2 == 1 {
+								ms = mshapes[1]
+							}
+							specs = append(specs, hsSpec{"hs",
+								peer.Policy{Auth: ca, Enc: ce, Integ: l[0], Methods: ms.C, Ciphers: cs.C, Command: 60007},
+								peer.Policy{Auth: sa, Enc: se, Integ: l[1], Methods: ms.S, Ciphers: cs.S}})
 						}
 					}
 				}
